@@ -338,6 +338,8 @@ def c14(tier):
     uw.uw1(P, C)
     uw.uw2(P, C)
     uw.uw4(P, C)
+    uw.uw5(P, C)
+    uw.uw6(P, C)
     uw.vg4(P, C)
     ts.ts2(P, C, only=("convolve",), rule_floor=1)
     cw.cw1(P, C, only=("splinetable_convolve",))
@@ -387,6 +389,7 @@ def c06(tier):
     # auxiliary values survive the round trip only if write_key refuses what a card cannot hold
     ax.ks1(P, C)
     ax.uw3(P, C)
+    ax.km2(P, C)
     ax.fs4(P, C)
     C.extra["units"] = sorted(P.units.keys())
     return C.finish()
